@@ -94,6 +94,8 @@ def files_for(n, imports, ns, absolute_root=None, with_json=False, layout=None):
         pk = "namespace: N%d\n" % ns[i]
         if with_json and i == 0:
             pk += "json:\n  outputDir: out\n"
+            if with_json == "py":
+                pk += "python:\n  outputDir: outpy\n"
         if imports[i]:
             pk += "imports:\n"
             for j in imports[i]:
@@ -143,6 +145,10 @@ def run_config(cfg):
                 cli["namespaces"] = [x["name"] for x in json.load(open(mj))["namespaces"]]
             except Exception as e:
                 cli["namespaces_err"] = str(e)
+        if use_cli == "py" and rc == 0:
+            # the generated Python package of the root must import: every imported namespace it uses has to be imported by it
+            p = build.run([build.PY, "-c", "import sys; sys.path.insert(0, %r); import n%d as m; m.T0()" % (os.path.join(main_dir, "outpy"), ns[0])], timeout=120)
+            cli["py_import"] = None if p.returncode == 0 else p.stderr.decode(errors="replace")[-400:]
         res["cli"] = cli
     return cfg, res
 
@@ -302,6 +308,18 @@ def main(tier):
                 continue
             k += 1
             configs.append((n, adj, tuple(range(n)), k % 25 == 0, "special"))
+    # imported types are usable from the generated code too: the root imports three packages in every order, with every acyclic
+    # choice of <= 2 further imports among them; Python is generated and the root package imported
+    pairs = [(a, b) for a in (1, 2, 3) for b in (1, 2, 3) if a != b]
+    for r in range(0, 3):
+        for extra in itertools.combinations(pairs, r):
+            if any((b, a) in extra for a, b in extra):
+                continue
+            for perm in itertools.permutations((1, 2, 3)):
+                adj = [list(perm), [], [], []]
+                for a, b in extra:
+                    adj[a].append(b)
+                configs.append((4, adj, (0, 1, 2, 3), "py", False))
     fam = depth_family(quick) + depth_family2(quick)
     for idx, (N, adj, kind) in enumerate(fam):
         configs.append((N, adj, tuple(range(N)), idx % (6 if quick else 15) == 0, False))
@@ -372,6 +390,8 @@ def main(tier):
                 chk.fail("cli/crash", "CLI exit %d: %s" % (cli["rc"], cli["stderr"]), {"config": desc, "cli": cli})
             elif (cli["rc"] != 0) != got_err:
                 chk.fail("cli/disagrees-with-inprocess", "CLI rc=%d but in-process err=%r" % (cli["rc"], res.get("err")), {"config": desc, "cli": cli, "result": res})
+            elif cli.get("py_import"):
+                chk.fail("python/imported-types-unusable", "the generated Python package of the root does not import: %s: %s" % (cli["py_import"][-200:], json.dumps(desc)), {"config": desc, "cli": cli})
             elif cli["rc"] == 0 and sorted(cli.get("namespaces", [])) != sorted(res["order"]):
                 chk.fail("cli/model-json-namespaces", "model.json namespaces %s != %s" % (cli.get("namespaces"), res["order"]), {"config": desc, "cli": cli})
         if chk.evaluations % 5000 == 1:
